@@ -28,6 +28,8 @@ RAW = [
  ("import-strings", "s = import(\"strings\"); p(s.ToUpper(\"ab\")); p(s.Join([\"a\", \"b\"], \"-\")); return s.Contains(\"abc\", \"b\")"),
  ("import-rebind", "s = import(\"strings\"); s.ToLower = 5; t = import(\"strings\"); p(t.ToLower(\"X\")); p(s.ToLower); return t.ToLower(\"Y\")"),
  ("import-assign-through", "r = import(\"strings\").ToUpper(\"x\"); import(\"strings\").ToUpper = 7; f = func(pk) { pk.ToLower = 8 }; f(import(\"strings\")); p(r); return import(\"strings\").ToLower(\"Y\")"),
+ ("addr-of-computed", "p1 = &(1 + 2); *p1 = 40; q = 1 + 2; p(q); x = 5; p2 = &(x * 2); *p2 = 41; p(x * 2); return 1 + 2"),
+ ("addr-of-len", "a = [1, 2, 3]; p3 = &len(a); *p3 = 77; p(len(a)); p(len([4, 5, 6])); return 3"),
  ("import-delete", "s = import(\"strings\"); t = import(\"strings\"); p(t.ToUpper(\"x\")); return s.ToUpper(\"y\")"),
  ("import-sort", "sort = import(\"sort\"); a = [3, 1, 2]; sort.Slice(a, func(i, j) { return a[i] < a[j] }); p(a); return a[0]"),
  ("varargs", "f = func(a, b...) { return len(b) + a }; p(f(1)); p(f(1, 2, 3)); x = [5, 6]; p(f(1, x...)); return f(0)"),
